@@ -198,7 +198,26 @@ def oracle_rk4_witness(args):
         {"purity": 1.0}, "after one linear-rk4 step from a pure state tr rho^2 = %.15g (Lean witness: 1145/1152 = %.15g)" % (pur, 1145.0 / 1152.0)
 
 
-ORACLES = {"rk4_witness": oracle_rk4_witness, "step": oracle_step, "run": oracle_run, "collapse": oracle_collapse}
+@safe_oracle
+def oracle_restart_valid(args):
+    """a run that is stopped, restarted from its log and continued: every density matrix logged before AND after the restart is
+    a valid state (the step count of a run includes the steps taken after a restart)"""
+    from . import c13
+    spec = dict(args)
+    U, R, n_before, gauge = c13.run_case(spec)
+    problems = []
+    for which, snaps in (("uninterrupted", U), ("restarted", R)):
+        for i, s in enumerate(snaps):
+            if "density_matrix" not in s:
+                continue
+            p = _valid_state(np.asarray(s["density_matrix"]), tol=1e-9)
+            if p:
+                problems.append("%s run, snapshot %d (%s the restart at %d): %s" % (which, i, "after" if i >= n_before else "before", n_before, "; ".join(p)))
+                break
+    return not problems, {"snapshots": len(R), "restart_at": n_before, "problems": problems[:2]}, {"problems": []}, "; ".join(problems[:2]) or "ok"
+
+
+ORACLES = {"restart_valid": oracle_restart_valid, "rk4_witness": oracle_rk4_witness, "step": oracle_step, "run": oracle_run, "collapse": oracle_collapse}
 
 
 def run(ctx):
@@ -313,6 +332,17 @@ def run(ctx):
         if not ok:
             ctx.oracle_fail("adiabatic-model-coupling-diagonal" if "Hermiticity" in text else "invalid-state-in-run:shin-metiu",
                             "run", spec, obs, req, text)
+    # stop / restart from the log / continue, with mixed and pure initial states
+    for i in range(ctx.budget(6, 80)):
+        K = int(rng.integers(6, 14))
+        a = dict(cls=["Ehrenfest", "TrajectorySH"][i % 2], N=int(rng.integers(2, 4)), n=int(rng.integers(1, 3)), model_seed=int(rng.integers(1, 10 ** 6)),
+                 dt=float(rng.choice([2.0, 5.0])), t0=0.0, K=K, k=int(rng.integers(2, K - 1)), rule="max_steps", pitch=int(rng.integers(1, 9)),
+                 zetas=[float(v) for v in 0.2 + 0.8 * rng.random(K + 4)], rho=["mixed", "mixed", "pure"][i % 3])
+        ok, obs, req, text = oracle_restart_valid(a)
+        ctx.case(("restart-valid", a["cls"], a["rho"]))
+        ctx.count("restart_valid_runs")
+        if not ok:
+            ctx.oracle_fail("invalid-state-after-restart:" + a["cls"], "restart_valid", a, obs, req, text)
     for i in range(ctx.budget(24, 400)):
         a = {"seed": int(rng.integers(1, 10 ** 6)), "n": int(rng.integers(1, 4)), "state": i % 2, "hop": i >= 8}
         ok, obs, req, text = oracle_collapse(a)
